@@ -138,6 +138,22 @@ pub fn wf_registry(r: &mut Rng, n: u32) -> PortableRegistry {
     let types = (0..n).map(|i| PortableType::new(i, ty(r, &mut idf, false))).collect();
     PortableRegistry { types }
 }
+/// A registry of tiny entries only (path-less primitives, empty tuples/composites, single references): the smallest
+/// encodings the format allows, 6-8 bytes per entry.
+pub fn tiny_registry(r: &mut Rng, n: u32) -> PortableRegistry {
+    let types = (0..n)
+        .map(|i| {
+            let d: TypeDef<PortableForm> = match r.below(5) {
+                0 | 1 => crate::proto::prim_of_tag(r.below(15) as u32).unwrap().into(),
+                2 => TypeDefTuple::new_portable(Vec::<<PortableForm as scale_info::form::Form>::Type>::new()).into(),
+                3 => TypeDefSequence::new((r.below(n as u64) as u32).into()).into(),
+                _ => TypeDefComposite::new(Vec::<Field<PortableForm>>::new()).into(),
+            };
+            PortableType::new(i, Type::new(Path::from_segments_unchecked(Vec::<String>::new()), Vec::new(), d, Vec::new()))
+        })
+        .collect();
+    PortableRegistry { types }
+}
 /// An arbitrary registry: ids and references anywhere in u32.
 pub fn wild_registry(r: &mut Rng, n: u32) -> PortableRegistry {
     let mut idf = |r: &mut Rng| wild_id(r);
